@@ -251,17 +251,32 @@ memxorbuf(void *dst, size_t dsize, const void *src, size_t ssize) {
 int
 cvt_hex2bin(const uint8_t *hex, size_t hex_size, int auto_out_size,
     uint8_t *bin, size_t bin_size, size_t *bin_size_ret) {
-	const uint8_t *hex_max;
+	const uint8_t *hex_max, *hex_cur;
 	uint8_t cur_char, *bin_max, byte = 0;
-	size_t cnt;
+	size_t cnt, bin_need;
 
 	if (NULL == hex || 0 == hex_size || NULL == bin || 0 == bin_size)
 		return (EINVAL);
 
-	if (bin_size < (hex_size / 2))
-		return (EOVERFLOW);
 	hex_max = (hex + hex_size);
 	bin_max = (bin + bin_size);
+	/* Required size: only hex digits are converted, other chars skipped. */
+	cnt = 0;
+	for (hex_cur = hex; hex_cur < hex_max; hex_cur ++) {
+		cur_char = (*hex_cur);
+		if (('0' <= cur_char && '9' >= cur_char) ||
+		    ('a' <= cur_char && 'f' >= cur_char) ||
+		    ('A' <= cur_char && 'F' >= cur_char)) {
+			cnt ++;
+		}
+	}
+	bin_need = (cnt / 2);
+	if (bin_size < bin_need) {
+		if (NULL != bin_size_ret) {
+			(*bin_size_ret) = bin_need;
+		}
+		return (EOVERFLOW);
+	}
 
 	for (cnt = 0; hex < hex_max; hex ++) {
 		cur_char = (*hex);
@@ -278,8 +293,12 @@ cvt_hex2bin(const uint8_t *hex, size_t hex_size, int auto_out_size,
 		cnt ++;
 		if (2 > cnt) /* Wait untill 4 + 4 bit before write a byte. */
 			continue;
-		if (bin == bin_max)
+		if (bin == bin_max) { /* Should newer happen. */
+			if (NULL != bin_size_ret) {
+				(*bin_size_ret) = bin_need;
+			}
 			return (EOVERFLOW);
+		}
 		(*bin ++) = byte;
 		byte = 0;
 		cnt = 0;
